@@ -184,3 +184,100 @@ Theorem C03_cell_cover (n : nat) (o : Z) (t : (Z * Z) * bool) (X Y : Q) :
        Forall (fun c => - (1 # 18014398509481984) <= c)%Q (crosses QInst l P)).
 Proof. exact (cell_cover n o t X Y). Qed.
 Print Assumptions C03_cell_cover.
+
+(* ---- Every quintant 0..4, lattice units (Geo/TilingQuintants.v, exact rationals, axiom-free).  The outline of a cell in
+   quintant q is the image of its quintant-0 outline under the quintant's f64 rotation matrix M_q (determinant in
+   (0, 1 + 1e-15]); an arbitrary point is pulled back through the exact rational inverse of M_q and every cross product
+   of images is det M_q times the original.  Disjointness keeps the constant 1e-16 (the quintant-0 proof holds from
+   2^-54 upwards); covering holds with -(2^-53) instead of -(2^-54).  Not covered: the interlocking between different
+   quintants and faces, the scaled statements, and the sphere. ---- *)
+From A5 Require Import Geo.AreaProofs Geo.ChildQuintants Geo.LocateQuintants Geo.TilingQuintants.
+Open Scope Q_scope.
+
+Theorem C03_cells_eps_disjoint_q (n : nat) (q o s1 s2 : Z) (l1 l2 : list (Q * Q)) :
+  (0 <= q <= 4)%Z -> (1 <= n <= 29)%nat -> (0 <= o < 6)%Z ->
+  (0 <= s1 < 4 ^ Z.of_nat n)%Z -> (0 <= s2 < 4 ^ Z.of_nat n)%Z ->
+  get_pentagon_vertices QInst 0 q (s_to_anchor s1 n o) = Some l1 ->
+  get_pentagon_vertices QInst 0 q (s_to_anchor s2 n o) = Some l2 ->
+  s1 <> s2 ->
+  forall w : Q * Q,
+    ~ (Forall (fun c => (1 # 10000000000000000) < c) (crosses QInst l1 w) /\
+       Forall (fun c => (1 # 10000000000000000) < c) (crosses QInst l2 w)).
+Proof. exact (cells_eps_disjoint_q n q o s1 s2 l1 l2). Qed.
+Print Assumptions C03_cells_eps_disjoint_q.
+
+Theorem C03_cells_equal_or_eps_disjoint_q (n : nat) (q o1 o2 s1 s2 : Z) (l1 l2 : list (Q * Q)) :
+  (0 <= q <= 4)%Z -> (1 <= n <= 29)%nat -> (0 <= o1 < 6)%Z -> (0 <= o2 < 6)%Z ->
+  (0 <= s1 < 4 ^ Z.of_nat n)%Z -> (0 <= s2 < 4 ^ Z.of_nat n)%Z ->
+  get_pentagon_vertices QInst 0 q (s_to_anchor s1 n o1) = Some l1 ->
+  get_pentagon_vertices QInst 0 q (s_to_anchor s2 n o2) = Some l2 ->
+  Forall2 (fun p r : Q * Q => fst p == fst r /\ snd p == snd r) l1 l2 \/
+  forall w : Q * Q,
+    ~ (Forall (fun c => (1 # 10000000000000000) < c) (crosses QInst l1 w) /\
+       Forall (fun c => (1 # 10000000000000000) < c) (crosses QInst l2 w)).
+Proof. exact (cells_equal_or_eps_disjoint_q n q o1 o2 s1 s2 l1 l2). Qed.
+Print Assumptions C03_cells_equal_or_eps_disjoint_q.
+
+Theorem C03_positions_injective_q (n : nat) (q o s1 s2 : Z) (l1 l2 : list (Q * Q)) :
+  (0 <= q <= 4)%Z -> (1 <= n <= 29)%nat -> (0 <= o < 6)%Z ->
+  (0 <= s1 < 4 ^ Z.of_nat n)%Z -> (0 <= s2 < 4 ^ Z.of_nat n)%Z ->
+  get_pentagon_vertices QInst 0 q (s_to_anchor s1 n o) = Some l1 ->
+  get_pentagon_vertices QInst 0 q (s_to_anchor s2 n o) = Some l2 ->
+  s1 <> s2 ->
+  ~ (fst (get_center QInst l1) == fst (get_center QInst l2) /\
+     snd (get_center QInst l1) == snd (get_center QInst l2)).
+Proof. exact (positions_injective_q n q o s1 s2 l1 l2). Qed.
+Print Assumptions C03_positions_injective_q.
+
+Theorem C03_orientations_same_tiles_q (n : nat) (q o1 o2 s1 : Z) :
+  (0 <= q <= 4)%Z -> (1 <= n <= 29)%nat -> (0 <= o1 < 6)%Z -> (0 <= o2 < 6)%Z -> (0 <= s1 < 4 ^ Z.of_nat n)%Z ->
+  exists s2 l1 l2, (0 <= s2 < 4 ^ Z.of_nat n)%Z /\
+    get_pentagon_vertices QInst 0 q (s_to_anchor s1 n o1) = Some l1 /\
+    get_pentagon_vertices QInst 0 q (s_to_anchor s2 n o2) = Some l2 /\
+    Forall2 (fun p r : Q * Q => fst p == fst r /\ snd p == snd r) l1 l2.
+Proof. exact (orientations_same_tiles_q n q o1 o2 s1). Qed.
+Print Assumptions C03_orientations_same_tiles_q.
+
+Theorem C03_cell_is_canonical_tile_q (n : nat) (q o s : Z) :
+  (0 <= q <= 4)%Z -> (1 <= n <= 29)%nat -> (0 <= o < 6)%Z -> (0 <= s < 4 ^ Z.of_nat n)%Z ->
+  exists l, get_pentagon_vertices QInst 0 q (s_to_anchor s n o) = Some l /\
+    let t := tau_of (s_to_anchor s n o) in
+    Forall2 (fun p r : Q * Q => fst p == fst r /\ snd p == snd r) l (map (lin (rotation QInst q)) (canon_tile t)) /\
+    in_quintant n t.
+Proof. exact (cell_is_canonical_tile_q n q o s). Qed.
+Print Assumptions C03_cell_is_canonical_tile_q.
+
+Theorem C03_canonical_tiles_eps_disjoint_q (q : Z) (t1 t2 : tri) : (0 <= q <= 4)%Z -> t1 <> t2 ->
+  forall w : Q * Q,
+    ~ (Forall (fun c => (1 # 10000000000000000) < c) (crosses QInst (map (lin (rotation QInst q)) (canon_tile t1)) w) /\
+       Forall (fun c => (1 # 10000000000000000) < c) (crosses QInst (map (lin (rotation QInst q)) (canon_tile t2)) w)).
+Proof. exact (canonical_tiles_eps_disjoint_q q t1 t2). Qed.
+Print Assumptions C03_canonical_tiles_eps_disjoint_q.
+
+Theorem C03_plane_covered_q (q : Z) (P : Q * Q) : (0 <= q <= 4)%Z ->
+  exists t, Forall (fun c => - (1 # 9007199254740992) <= c)
+                   (crosses QInst (map (lin (rotation QInst q)) (canon_tile t)) P).
+Proof. exact (plane_covered_q q P). Qed.
+Print Assumptions C03_plane_covered_q.
+
+Theorem C03_triangle_covered_q (q i j : Z) (u : bool) (X Y : Q) : (0 <= q <= 4)%Z ->
+  0 <= X -> 0 <= Y -> (if u then X + Y <= 1 else X <= 1 /\ Y <= 1 /\ 1 <= X + Y) ->
+  exists t', In t' (nbrs ((i, j), u)) /\
+    Forall (fun c => - (1 # 9007199254740992) <= c)
+           (crosses QInst (map (lin (rotation QInst q)) (canon_tile t'))
+                    (lin (rotation QInst q) (Bq (inject_Z i + X) (inject_Z j + Y)))).
+Proof. exact (triangle_covered_q q i j u X Y). Qed.
+Print Assumptions C03_triangle_covered_q.
+
+Theorem C03_cell_cover_q (n : nat) (q o : Z) (t : (Z * Z) * bool) (X Y : Q) :
+  (0 <= q <= 4)%Z -> (1 <= n <= 29)%nat -> (0 <= o < 6)%Z -> in_quintant n t ->
+  0 <= X -> 0 <= Y -> (if snd t then X + Y <= 1 else X <= 1 /\ Y <= 1 /\ 1 <= X + Y) ->
+  let P := lin (rotation QInst q) (Bq (inject_Z (fst (fst t)) + X) (inject_Z (snd (fst t)) + Y)) in
+  exists t', In t' (nbrs t) /\
+    Forall (fun c => - (1 # 9007199254740992) <= c) (crosses QInst (map (lin (rotation QInst q)) (canon_tile t')) P) /\
+    (in_quintant n t' ->
+     exists s l, (0 <= s < 4 ^ Z.of_nat n)%Z /\ get_pentagon_vertices QInst 0 q (s_to_anchor s n o) = Some l /\
+       tau_of (s_to_anchor s n o) = t' /\
+       Forall (fun c => - (1 # 9007199254740992) <= c) (crosses QInst l P)).
+Proof. exact (cell_cover_q n q o t X Y). Qed.
+Print Assumptions C03_cell_cover_q.
